@@ -34,6 +34,7 @@ EXPLANATION = ("add and pop_used are path-enumerated (loop-containing helpers ke
 FLOORS = {'used_ring_reads': 2, 'free_queries': 1, 'add_paths': 2, 'pop_paths': 2, 'capacity_rows': 1000, 'counter_ops': 2, 'helper_pops': 1}
 
 
+@shared_rule
 def counters_rule(F, R, rule):
     """E5 under another property's rule name (the free-running indices decide whether a completion is seen at all)."""
     M = model(F)
@@ -51,6 +52,7 @@ def counters_rule(F, R, rule):
     e5_counters(F, R, M, tfield, lfield, rule=rule)
 
 
+@shared_rule
 def pop_rule(F, R, rule):
     """E1 + E2 under another property's rule name: a refused completion poll changes nothing, a successful one consumes exactly
     the head of the used ring - id and length read from the slot of the trusted index - and releases that chain."""
@@ -68,6 +70,7 @@ def pop_rule(F, R, rule):
     e2b_all_slots(F, P, M, lf)
 
 
+@shared_rule
 def wrap_rule(F, R, rule):
     """E5 + E9 under another property's rule name: completions keep being seen after the 16-bit ring indices wrap
     (wrap-safe counters and the folded completion test)."""
@@ -116,7 +119,7 @@ def run(F, R):
     # E12: "a poll that finds nothing ready or a non-matching token changes nothing" at driver level: bookkeeping keyed by the
     # token is released only after the fallible pop succeeded (C20.Z7)
     from .C20 import z7_release_after_pop
-    z7_release_after_pop(F, RuleProxy(R, {'Z7': 'E12'}), M, roles)
+    guard(R, 'E12', 'release-after-pop', lambda: z7_release_after_pop(F, RuleProxy(R, {'Z7': 'E12'}), M, roles))
     e9_can_pop(F, R, M, by['can_pop'][0], lfield)
 
 
